@@ -10,5 +10,9 @@ import DeepModel.Props.C11
 #print axioms C11.c11_registered_isolated
 #print axioms C11.c11_registered_usable
 #print axioms C11.c11_metric_defs
+#print axioms C11.c11_unconvertible
+#print axioms C11.c11_response_never_lost
+#print axioms C11.c11_watches_only_in_snapshot
+#print axioms C11.c11_nameless_method_ignores_line
 #print axioms C11.c11_group_location_partial
 #print axioms C11.c11_id_clash_witness
